@@ -33,7 +33,7 @@ def _progs_for(prop, tier, seed):
             jobs.append({"prog": p, "scenario": dict(kind=kind, **kw), "kinds": kinds})
 
     if prop == "C01":
-        progs = gen.c01_curated() + gen.random_programs(1000 + seed, 10, max_arity=2, max_body=2)
+        progs = gen.c01_curated() + gen.random_programs(1000 + seed, 30, max_arity=2, max_body=2)
         if not q:
             progs += gen.random_programs(1500 + seed, 120, prefix="rndb", max_arity=2, max_body=3)
             progs += gen.random_programs(1700 + seed, 20, prefix="rndc", max_arity=3, max_body=2)
@@ -60,7 +60,8 @@ def _progs_for(prop, tier, seed):
     elif prop == "C06":
         add(gen.c06_variants(seed, per_base=6 if q else 18), "run", ["mismatch", "nonterm", "panic"])
     elif prop == "C07":
-        add(gen.c07_curated(), "run", ["mismatch", "nonterm", "panic"])
+        add(gen.c07_curated() + gen.random_programs(7000 + seed, 20 if q else 150, prefix="rsug", max_arity=2, max_body=2, sugar=True),
+            "run", ["mismatch", "nonterm", "panic"])
     elif prop == "C08":
         add(gen.c08_curated(), "run", ["mismatch", "nonterm", "panic"])
     elif prop == "C09":
